@@ -27,6 +27,9 @@ CHECKS["C11"] = ("property-based testing (proptest): step sequence and first tri
 CHECKS["C19"] = ("stateful property-based testing (proptest): scripted callback histories (Interrupt / no-op / doubling at generated indices) against the undisturbed history of the same low-level solver",
          "Histories over all six low-level solvers with a recording SolOut: first-call/contiguity/interpolant-endpoint invariants on every callback, Interrupt stops without further evaluations (counted by the instrumented IVP), untouched ModifiedSolution is a bit-exact no-op, doubling a linear homogeneous state doubles everything after it bit-exactly for explicit methods.",
          "BDF (history restart) and implicit doubling only to tolerance; contiguity to 8 ulp.", "DESIGN.md §4 C19")
+CHECKS["C06"] = ("property-based testing (proptest): dense output vs the accepted-step grid and states observed through the events hook; generated interior / outside query points",
+         "Generated problems (incl. mildly stiff ones for BDF order changes and Radau rejections), options and query points; the true step grid and states come from one events() call per accepted step, so span coverage, end-point reproduction, continuity across boundaries and error kinds are decided per step of every run.",
+         "Tolerances 1e-10(1+|y|) + 8 max|f| ulp(t); 'clearly outside' = 1e-9(1+|t|).", "DESIGN.md §4 C06")
 PENDING = {}
 
 def main():
